@@ -100,7 +100,11 @@ pub fn build_tcp(sig: &TSig, request: bool, v4: bool, hops: u8, r: &mut Rng, ep:
         return None;
     }
     // option bytes from the layout
-    let mss = if sig.olayout.contains(&TcpOption::Mss) { Some(sig.mss.unwrap_or(*r.pick(&[1460u16, 1400, 1380, 536, 1452]))) } else { None };
+    // a wildcard MSS takes common values; for `mss*N` windows also small legal ones (below 100 the
+    // analyzer keeps the window as a raw value and compares it with N x the observed MSS)
+    let small_mss = matches!(sig.wsize, WindowSize::Mss(_)) && r.chance(1, 5);
+    let free_mss = if small_mss { *r.pick(&[64u16, 88, 99, 100, 48]) } else { *r.pick(&[1460u16, 1400, 1380, 536, 1452]) };
+    let mss = if sig.olayout.contains(&TcpOption::Mss) { Some(sig.mss.unwrap_or(free_mss)) } else { None };
     // a wildcard scale admits every shift count the quirk list allows: 0..=14 without `exws`,
     // 15..=255 with it (the bounds themselves are drawn often)
     let ws = if sig.olayout.contains(&TcpOption::Ws) {
@@ -347,6 +351,11 @@ pub fn build_http_with(sig: &HSig, request: bool, v11: bool, include_optional: b
     }
     let _ = has_sw;
     s.push_str("\r\n");
+    // line ends: CRLF, or (a third of the variants) the bare LF some clients and servers send
+    // and the analyzer accepts -- p0f signatures say nothing about line ends
+    if (alt / 4) % 3 == 2 {
+        s = s.replace("\r\n", "\n");
+    }
     (s.into_bytes(), HttpModel { v11, headers, sw })
 }
 
